@@ -9,6 +9,18 @@
 #ifndef BUF
 #define BUF 58
 #endif
+#ifndef TXBUF
+#define TXBUF BUF
+#endif
+#ifndef RXBUF
+#define RXBUF BUF
+#endif
+#ifndef IRQ_Q
+#define IRQ_Q 1     // upper layer calls interrupted by the radio at their lock acquisition ( quick / thorough )
+#endif
+#ifndef IRQ_T
+#define IRQ_T 1
+#endif
 #ifndef DEPTH_Q
 #define DEPTH_Q 6
 #endif
@@ -35,9 +47,9 @@
 
 #if defined( ISR ) && ISR
 #include "C15_isr.hpp"
-using world_t = c15::World< c15::IsrRadio< BUF, BUF > >;
+using world_t = c15::World< c15::IsrRadio< TXBUF, RXBUF > >;
 #else
-using world_t = c15::World< c15::Radio< BUF, BUF > >;
+using world_t = c15::World< c15::Radio< TXBUF, RXBUF > >;
 #endif
 
 static int ev( int cact, int fcp, int fpc, int uact ) { return ( ( cact * 4 + fcp ) * 2 + fpc ) * c15::NU + uact; }
@@ -69,6 +81,7 @@ int main( int argc, char** argv )
     static world_t w;
     w.max_resets = int( a.num( "resets", a.thorough() ? RESETS_T : RESETS_Q ) );
     w.max_llid0  = int( a.num( "llid0",  a.thorough() ? LLID0_T  : LLID0_Q ) );
+    w.with_irq   = a.num( "irq", a.thorough() ? IRQ_T : IRQ_Q ) != 0;
 
     mc::BfsOptions o;
     o.max_depth  = int( a.num( "depth", a.thorough() ? DEPTH_T : DEPTH_Q ) );
@@ -82,6 +95,7 @@ int main( int argc, char** argv )
         // a trace may come from either tier
         w.max_resets = RESETS_Q > RESETS_T ? RESETS_Q : RESETS_T;
         w.max_llid0  = LLID0_Q > LLID0_T ? LLID0_Q : LLID0_T;
+        w.with_irq   = IRQ_Q || IRQ_T;
         return bfs.replay_file( mc::read_replay( a.replay ) );
     }
 
@@ -96,7 +110,7 @@ int main( int argc, char** argv )
 
     rep.sample( sample_run( w, { ev( C_LLID0, FT_OK, 0, U_NONE ), ev( C_EMPTY, FT_OK, 1, U_COMMIT1 ), ev( C_DATA, FT_OK, 0, U_RESET ), ev( C_EMPTY, FT_OK, 0, U_COMMIT1 ), ev( C_EMPTY, FT_OK, 0, U_NONE ) } ) );
     rep.notes[ "world" ] = mc::fmt( "%s; ll_data_pdu_buffer<%d,%d,Radio>, max_rx_size = max_tx_size = 29, sizeof = %zu bytes, state image %zu bytes, ids and packet counters modulo %u%s",
-        world_t::dut_t::dut_name(), BUF, BUF, sizeof( world_t::dut_t ), bfs.isz, IDM, FORCED ? ", central may repeat acknowledged PDUs" : "" );
+        world_t::dut_t::dut_name(), TXBUF, RXBUF, sizeof( world_t::dut_t ), bfs.isz, IDM, FORCED ? ", central may repeat acknowledged PDUs" : "" );
     rep.notes[ "bound" ] = mc::fmt( "all event sequences of %d connection events (alphabet %d, enabledness by reference state; at most %d new connection(s) and %d PDU(s) with LLID 0 per sequence)%s",
         o.max_depth, w.num_events(), w.max_resets, w.max_llid0, rep.fixpoint ? "; fixpoint reached: every reachable state was expanded" : "; no fixpoint within the bound" );
     rep.counters[ "foreign-oracle-C15-failures-pruned" ] = w.foreign[ 0 ];
